@@ -378,7 +378,7 @@ def real_run(code, kind, assign, none_candidates=()):
             out = ('pass', loops, y, depth)
     except Exception as e:
         out = ('exc', type(e).__name__)
-    if env.foreign: out = out + ('foreign',)
+    if env.foreign or 'native:' in repr(env.asked): out = out + ('foreign',)
     return out, env.asked
 
 
@@ -401,6 +401,7 @@ def subst_items(tag, sub, assign=None, top=True, nonec=None):
             if (f.startswith('un:') and native[0]) or (f.startswith('bin:') and all(native)) or (f in CMPSYM.values() and native[0]) \
                     or (f.startswith('attr:') and native[0]) or (f == 'subscr' and native[0]) or (f.startswith('call') and native[0]) or (f == 'in' and native[1]):
                 raise SkipValidation('operator applied to a constant operand is computed by CPython itself')
+            if f == 'slice' and len(args) == 3 and args[2] is None: args = args[:2]      # slice(a, b, None) is slice(a, b)
             tag = fold_fstring(('app', f, args))
         if top and assign and assign.get(('none', tag)) and (nonec is None or tag in nonec) and not is_native(tag): return None
     return tag
